@@ -47,7 +47,8 @@ PROPS = {
              "one evaluation = one random operation sequence over {PrepareSet, AddRecord, AddRecordWithExtraElements(k), AddRecordV2, "
              "UpdateLenInHeader, ResetSet} applied in lockstep to four set objects (one per add path + one mixed, long-lived, reused through "
              "ResetSet across the whole batch) and to a fresh set replaying the operations since the last reset; after EVERY operation: "
-             "reported length == 4 + sum(record lengths) == serialised bytes - 16, record buffer == reported length == reference encoding, "
+             "reported length == 4 + sum(record lengths) == serialised bytes - 16, record buffer == reported length == reference encoding, the "
+             "4-byte set header == (id written by PrepareSet, length as of the last UpdateLenInHeader; zero after a reset), "
              "CreateIPFIXMsg output == refipfix encoding byte for byte. Non-trivial = contains a reset followed by adds, or >= 2 add paths; "
              "distinct by hash of the operations with their values.",
              COMMON_ASSUME, "runtime monitor: lockstep differential of the three add paths + fresh replay + reference length/byte model after every op"),
@@ -57,7 +58,11 @@ PROPS = {
              "template id), template records must match the elements sent (id, enterprise bit+number, length), data sets must split under the "
              "template previously parsed FROM THE WIRE into exactly the values handed to SendSet, and the whole message must equal refipfix's own "
              "encoding byte for byte. Templates of 1..40 elements from the IANA/reverse/Antrea registries plus a user-registered enterprise; "
-             "1..fit records. Non-trivial = data message with >= 1 record or template with >= 1 enterprise field; distinct by message body.",
+             "1..fit records; one TCP case in six aims at the 65535-byte limit (messages of 65500..65560 bytes: above the limit SendSet must refuse, and "
+             "whatever reaches the wire must still be one well-formed message); one case in 400 is a UDP session with the 1 s template refresh "
+             "whose templates mix forward IANA elements with their reverse (29305) twins sharing element ids: every refresh datagram must be "
+             "the template sent under that id, byte for byte. Non-trivial = data message with >= 1 record or template with >= 1 enterprise "
+             "field; distinct by message body.",
              COMMON_ASSUME + ["UDP sends that the kernel refuses for datagram size are outside the library's control and only counted"],
              "runtime monitor: independent RFC 7011 decoder/encoder over bytes captured at a raw peer socket"),
     "C08": P(False, (8, 16), 16, (900, 3600), 300, 100, "exploration",
@@ -66,6 +71,8 @@ PROPS = {
              "below 2^32 (VerifSetSeqNumber hook) and cross the wrap. Every captured message: seq == running data-record count incl. this "
              "message mod 2^32 (templates do not advance it), configured observation domain, export time inside the wall-clock-second "
              "interval sampled around the call, bytes reported == bytes captured == one message; nothing else at the peer at the end. "
+             "One session in 16 is a UDP session with the 1 s template refresh running concurrently with 2.3 s of application sends (half of them "
+             "starting just below 2^32): the rule is checked in capture order on every datagram, whoever sent it. "
              "Non-trivial = a template between data messages, or the wrap crossed; distinct by hash of the (kind, record count) list.",
              COMMON_ASSUME + ["failed sends are outside C08's statement and are not generated here"],
              "runtime monitor: running-count model over headers parsed from bytes captured at a raw peer"),
@@ -74,7 +81,8 @@ PROPS = {
              "with unknown template ids, wrong field counts (one record of several), an undefined set type, messages of every length "
              "65519..65540, and ill-typed values (IPv6 in ipv4Address, wrong-length IPs, MAC shorter/longer than 6, fixed octetArray of the "
              "wrong length) in one field of one record. Must-refuse sends must return an error and 0 bytes; after each one a marker message is "
-             "sent and must be the next thing the peer sees; accepted messages must equal refipfix's encoding of the supplied values. "
+             "sent and must be the next thing the peer sees; the same refused set object is re-sent 0..2 times (an application retry) and must be "
+             "refused again; accepted messages must equal refipfix's encoding of the supplied values. "
              "Non-trivial = a refused send followed by an accepted one; distinct by hash of the send classes.",
              COMMON_ASSUME + ["an IPv4 address supplied for an ipv6Address element is not judged (net.IP treats it as its ::ffff: form)",
                               "a data set whose template send itself failed is a gray zone and is not generated"],
@@ -89,7 +97,9 @@ PROPS = {
              "version edits). Monitors: panic capture; CPU-time (5 CPU-s) and heap-growth (384 MiB) budget per call; exactness oracle: a "
              "delivered data message must equal refipfix's split of the body under the template in force (padding < shortest record), a "
              "delivered template must match the wire's ids/enterprise numbers. Non-trivial = version 10 and >= 20 bytes (reaches set "
-             "decoding); distinct by (mode, state, input bytes).",
+             "decoding); distinct by (mode, state, input bytes). Each batch ends with a phase that sends 3000 (thorough 60000) such inputs through the "
+             "REAL UDP and TCP handlers (sockets, goroutines): a panic there kills the child and is attributed by the front-end, and a valid "
+             "probe sent afterwards from the same socket / a fresh connection must still be delivered.",
              COMMON_ASSUME + ["an error return is always acceptable for C03", "not judged for exactness (still for totality): known elements announced with a non-registry length, "
                               "messages whose header/set length disagree with the bytes presented, set ids < 256, bytes after the first template record"],
              "runtime monitor: panic/CPU/heap budget monitors + reference-decoder oracle over hostile inputs x template states x modes"),
@@ -100,12 +110,15 @@ PROPS = {
              "flavour with a frozen injected clock). After every message: accepted iff the model has a valid template in force and the body "
              "splits under it; delivered records == refipfix's reading under the model's layout; collector's template table (hook) == "
              "model's keys and element lists. Exhaustive: all 15^4 (quick) / 15^5 (thorough) words over 3 keys; plus random histories of "
-             "length 6..40 over 2 domains x 4 ids in all 3 modes. Non-trivial = a data set after >= 2 template-affecting ops on related keys.",
+             "length 6..40 over 2 domains x 4 ids in all 3 modes, with 6 layouts including a pair of the same shape that differs only in the "
+             "enterprise number, and (lenient modes) the same unknown element announced with a different length in every layout; delivered "
+             "field names must be those of the template in force. Non-trivial = a data set after >= 2 template-affecting ops on related keys.",
              COMMON_ASSUME + ["a template set cut inside its 4-byte (id, count) header is not generated (gray zone)"],
              "runtime monitor: reference template-table model + table snapshot comparison after every message; bounded-exhaustive + random histories"),
     "C17": P(False, (8, 16), 16, (1200, 5400), 20000, 10000, "exploration",
              "one evaluation = one (template mixing known and unknown elements, 1..4 records, decoding mode): wire bytes from refipfix, "
-             "presented to a fresh collecting process per mode, plus a twin without the unknown fields. Strict must reject template and data; "
+             "presented to ONE long-lived collecting process per mode (unknown ids drawn half of the time from a small pool, so the same unknown "
+             "element recurs with different lengths under different template ids), plus a twin without the unknown fields. Strict must reject template and data; "
              "keep must deliver every unknown field as a nameless octetArray holding exactly the wire bytes (fixed 1..420 and variable with "
              "1- and 3-byte prefixes); drop must omit exactly the unknown fields; in keep/drop every known field must equal the encoded "
              "value AND the twin's value, with its registry name. Enumerated: 1..4 known fields x every multiset of <= 3 insertion slots "
@@ -146,13 +159,18 @@ PROPS = {
              "generated per run). What arrives on GetMsgChan() must carry the configured observation domain, the same fields (id, enterprise, "
              "type, length, name; order), the same number of records and bit-identical values. tcp/tls: every successful send must be "
              "delivered; udp/dtls: datagrams may be lost, a case is re-sent up to 3 times and delivery is required for messages <= 8000 bytes. "
+             "Every 16th case the exporter is replaced by a new exporting process of the same observation domain on the same long-lived "
+             "collector (its template ids restart at 256, so earlier ids are redefined), and every delivered message object is retained and "
+             "re-read after the next deliveries: its content must not change once delivered. "
              "Non-trivial = delivered and (>= 2 fields or >= 2 records or a boundary length); distinct by (config, elements, values).",
+
              COMMON_ASSUME + ["pion/dtls drops records above its 8 KiB receive buffer while Write succeeds: larger DTLS messages are sent, compared if they arrive, only counted if not",
                               "a 65535-byte value cannot travel end to end (header + set header + prefix leave 65512): that boundary is C15's and C09's"],
              "runtime monitor: sent-vs-delivered comparison over real sockets on 8 transport configurations; race detector"),
     "C12": P(True, (16, 16), 16, (1800, 7200), 60, 20, "exploration",
              "one evaluation = one run of a real collecting process (tcp / tls / udp) with 1..64 concurrent raw clients, each sending a "
-             "template and 0..200 uniquely numbered messages (domain = client, counter in header and in a field) with pacing jitter, abrupt "
+             "template and 0..200 uniquely numbered messages (domain = client, counter in header, in a field and in an octetArray field; delivered "
+             "message objects are re-read after later deliveries and must not have changed) with pacing jitter, abrupt "
              "closes mid-message, a consumer with random pauses that never stops draining, GOMAXPROCS in {1,2,4,16}, and Stop() during "
              "traffic in half of the runs. Offline checks over the event log: no duplicate delivery, nothing delivered that was not written, "
              "per-client order (over tcp/tls also no gap), every acknowledged message of a gracefully closed tcp/tls connection delivered "
@@ -168,7 +186,8 @@ PROPS = {
              "the sessions) and paced data (bursts / 0-2 ms gaps / idle) for 4.3 s: every datagram exactly one well-formed message, application "
              "messages unaltered and in order, every refresh copy equal to the original template, per-template refresh counts within 1 of each "
              "other, sequence numbers following the running record count in capture order; zero refresh copies after 4 and then 8 intervals "
-             "is a violation. peerclose: TCP exporter, CheckConnInterval 25 ms, peer closes, silent wait 1/2/4 s, the first SendSet must "
+             "is a violation. jsonrefresh: the same with SendJSONRecord: the peer must see exactly the application's JSON documents, in order, and "
+             "nothing else across two refresh ticks. peerclose: TCP exporter, CheckConnInterval 25 ms, peer closes, silent wait 1/2/4 s, the first SendSet must "
              "fail. close: CloseConnToCollector from 1..8 goroutines twice each while the application goroutine sends: returns (30 s bound), "
              "SendSet after it fails, peer stream == acknowledged sends (+ at most one failed send or a prefix of it), well-formed datagrams. "
              "At the end no goroutine with a pkg/exporter frame may remain. Non-trivial = application data fell between two datagrams of one "
@@ -268,6 +287,8 @@ PROPS = {
              "not-yet-valid, wrong SAN, no SAN} x ServerName {unset (address used), matching, mismatching}; client certificate {none, "
              "trusted, other CA, expired} x collector client-CA {unset, set} (judged by delivery at the collector). Versions: real exporter "
              "vs hand-made TLS server capped at 1.0/1.1/1.2/1.3 and hand-made TLS client capped at 1.0/1.1/1.2/1.3 vs real collector. "
+             "Sequences on ONE collector instance: a trusted exporter session (kept open over several connection checks), then exporters configured "
+             "with a CA that did not issue the collector's certificate / expecting another name, which must still be refused. "
              "Plaintext: plaintext exporter vs TLS and DTLS collectors (nothing may be delivered), TLS exporter vs plaintext peer (Init "
              "must fail and no IPFIX header may appear in clear in the peer's capture). DTLS, real exporter vs real collector: chain and "
              "validity failures and DNS ServerName mismatches judged; wrong/no SAN with an empty ServerName recorded but not judged. "
